@@ -1,22 +1,101 @@
+"""C11 — CrossSections are regularised; 2D Booleans compute the set operation."""
+
+# vcheck's sanitizer options with a smaller free-list quarantine: the default 256 MB per
+# process makes 16 parallel workers spend most of their time in page faults.
+_ASAN = ("abort_on_error=0:detect_leaks=0:allocator_may_return_null=1:max_allocation_size_mb=4096:"
+         "exitcode=97:handle_abort=1:detect_stack_use_after_return=0:malloc_context_size=12:"
+         "quarantine_size_mb=32")
+_ENV = {"ASAN_OPTIONS": _ASAN}
+_H = "c11_crosssection.cpp"
+
 CHECK = {
     "id": "C11", "level": "exploration",
-    "rule": "dev",
-    "min_nontrivial": {"quick": 1, "thorough": 1},
+    "rule": (
+        "Oracle = exact integer winding numbers (orientation predicate: double filter + exact floating-point "
+        "expansion) of the INPUT contours, folded through the fill rule (Positive: w>0, EvenOdd: w odd; these are "
+        "the two rules the public API offers) or the set formula on the operands' ToPolygons(), versus the winding "
+        "number of ToPolygons() of the result, at sample points farther than the guard band B from every input "
+        "edge AND every result edge (own long-double point-segment distance). B = 4*E + drift + 64*DBL_EPSILON*scale, "
+        "E = max(result.GetTolerance(), eps(scale)), eps(L) = 1001*12.37*2^-53*2^ceil(log2 L) (docs/Boolean2.md: "
+        "(k+1)*alpha, k=1000; cross_section.cpp passes InferEps(a,b) as the operation epsilon), drift = largest "
+        "diameter of a chain of input vertices linked by distances <= 1.01*eps (documented transitive vertex "
+        "merge). Samples: along both normals of input and result edges at 2x/10x/100x/1e3x/1e5x/1e7x B (edge "
+        "midpoint, random point, 3B from an endpoint), around input and result vertices, 7x7 stratified random "
+        "points; points inside the band are counted (points_skipped_in_band) and never decide. Regularity of every "
+        "value: result winding in {0,1} at every decided sample; no two result edges cross properly (exact "
+        "predicates) with all four endpoints farther than B from the other edge's line ('deep crossing'). "
+        "Stages: soup = constructors CrossSection(contours)/EvenOdd(contours) on 9 families of arbitrary contour "
+        "soups (random self-intersecting, overlapping stars incl. clockwise, small-integer rings with coincident and "
+        "collinear edges, exact/reversed/edge-shifted duplicates, copies shifted by k*eps, k lines within m*eps of "
+        "one point, rectangles sharing coordinates, needles, inserted collinear/duplicate/back-tracking vertices) at "
+        "scales 1e-4..1e4 and offsets; program = seeded programs of Boolean (method, operators, compound "
+        "assignment), BatchBoolean (0..5 operands), Translate/Rotate/Scale/Mirror/Transform chains and Warp/"
+        "WarpBatch (sine, fold, snap-to-grid, flatten, swirl) where every step is checked against the ToPolygons() "
+        "of its own operands (all of which passed the oracle before), incl. same-operand, exact-edge-shifted and "
+        "k*eps-shifted operands; transforms are checked for regularity only (their accuracy is C17's); lattice = "
+        "unions of 1..5 integer rectangles on [0,N]^2 (N<=10 quick, <=16 thorough, optionally shifted by integers up "
+        "to 2^20, built 5 ways incl. clockwise members under both fill rules): the result's directed unit "
+        "boundary edges must equal those of the pixel model one for one, Area() == pixel count (operator==), all "
+        "three ops, both operand orders (Area compared with ==; bitwise equality of canonicalised contours is "
+        "counted, not demanded), BatchBoolean with 2 and 3 operands; latticepairs = EVERY ordered pair of integer "
+        "rectangles on [0,4]^2 (quick: 100^2 = 10000 cases) / [0,5]^2 (thorough: 225^2 = 50625 cases), each with all "
+        "three ops, both orders, BatchBoolean, and as one two-contour soup in all 4 orientation combinations under "
+        "both fill rules (this sub-space is enumerated completely: counters latticepairs_enumerated == "
+        "latticepairs_space_size); large1k/large10k = inputs of >= 1024 / >= 1e4 edges per constructor call (BVH "
+        "broad phase): jittered-grid soups checked by the winding oracle and big lattices checked by the pixel "
+        "oracle. distinct_nontrivial = number of distinct (operation kind, bit pattern of all input contours) "
+        "tuples whose result is non-empty and for which the oracle decided at least one inside and one outside "
+        "point (lattice stages: distinct rectangle configurations with a non-empty union)."),
+    "min_nontrivial": {"quick": 20000, "thorough": 300000},
+    # the check as a whole samples; only the latticepairs sub-space is exhaustive (see rule and counters)
     "exhaustive": {"quick": False, "thorough": False},
     "stages": [
-        {"name": "soup", "variant": "asan", "harness": "c11_crosssection.cpp",
-         "cases": {"quick": 5000, "thorough": 200000}, "params": {"mode": "soup"}, "case_timeout": 120},
-        {"name": "program", "variant": "asan", "harness": "c11_crosssection.cpp",
-         "cases": {"quick": 1500, "thorough": 40000}, "params": {"mode": "program", "steps": {"quick": 8, "thorough": 14}}, "case_timeout": 120},
-        {"name": "lattice", "variant": "asan", "harness": "c11_crosssection.cpp",
-         "cases": {"quick": 20000, "thorough": 200000}, "params": {"mode": "lattice", "maxN": {"quick": 10, "thorough": 16}}, "case_timeout": 120},
-        {"name": "latticepairs", "variant": "asan", "harness": "c11_crosssection.cpp",
-         "cases": {"quick": 10000, "thorough": 50625}, "params": {"mode": "latticepairs", "N": {"quick": 4, "thorough": 5}}, "case_timeout": 120},
-        {"name": "large1k", "variant": "asan", "harness": "c11_crosssection.cpp",
-         "cases": {"quick": 16, "thorough": 160}, "params": {"mode": "large", "minEdges": 1024}, "case_timeout": 600},
-        {"name": "large10k", "variant": "asan", "harness": "c11_crosssection.cpp",
-         "cases": {"quick": 8, "thorough": 48}, "params": {"mode": "large", "minEdges": 10000}, "case_timeout": 1200},
+        {"name": "soup", "variant": "asan", "harness": _H, "env": _ENV,
+         "cases": {"quick": 5000, "thorough": 200000}, "params": {"mode": "soup"}, "case_timeout": 300},
+        {"name": "program", "variant": "asan", "harness": _H, "env": _ENV,
+         "cases": {"quick": 1500, "thorough": 40000},
+         "params": {"mode": "program", "steps": {"quick": 8, "thorough": 14}}, "case_timeout": 300},
+        {"name": "lattice", "variant": "asan", "harness": _H, "env": _ENV,
+         "cases": {"quick": 20000, "thorough": 200000},
+         "params": {"mode": "lattice", "maxN": {"quick": 10, "thorough": 16}}, "case_timeout": 300},
+        {"name": "latticepairs", "variant": "asan", "harness": _H, "env": _ENV,
+         "cases": {"quick": 10000, "thorough": 50625},
+         "params": {"mode": "latticepairs", "N": {"quick": 4, "thorough": 5}}, "case_timeout": 300},
+        {"name": "large1k", "variant": "asan", "harness": _H, "env": _ENV,
+         "cases": {"quick": 16, "thorough": 160}, "params": {"mode": "large", "minEdges": 1024},
+         "case_timeout": 900},
+        {"name": "large10k", "variant": "asan", "harness": _H, "env": _ENV,
+         "cases": {"quick": 8, "thorough": 48}, "params": {"mode": "large", "minEdges": 10000},
+         "case_timeout": 1800},
     ],
-    "assumptions": [],
+    "assumptions": [
+        "epsilon of the statement = max(GetTolerance() of the result, eps of the input bounding box per docs/Boolean2.md); "
+        "the monitor decides only points farther than B = 4*epsilon + merge-chain drift + 64*DBL_EPSILON*scale from every "
+        "input and result edge (never closer), so discrepancies confined to that band are not observed",
+        "a 'deep crossing' needs all four endpoints farther than B from the other edge's line; shallower residual "
+        "crossings are inside the band the docs grant",
+        "exact orientation predicate and crossing-number classifier in harness/c11_geom2d.h are correct (finite inputs, "
+        "no overflow/underflow of coordinate products: workloads stay within 1e-12..1e12)",
+        "operand-order independence is decided on the region (pixel set) and on Area() with ==; identical vertex "
+        "sets are only counted",
+        "transform accuracy is not C11's (only the regularity clause is applied to transform results)",
+        "g++ -O1 -fsanitize=address,undefined build of /repo's working tree, -DNDEBUG, MANIFOLD_PAR=-1 (serial; the "
+        "BVH broad phase is reached, the TBB branches are not), ASan quarantine reduced to 32 MB per worker",
+    ],
 }
-TEXT = {"text": "dev", "note": "dev", "technique": "runtime monitoring", "design_ref": "DESIGN.md 4 C11"}
+
+TEXT = {
+    "text": ("Held on the executions observed: an independent exact winding-number classifier compares the fill-rule / "
+             "set-formula membership computed from the input contours with ToPolygons() of every value produced by "
+             "constructors (Positive and EvenOdd), Boolean/BatchBoolean, transforms and warps, at adversarial sample "
+             "points outside an explicit epsilon band; every value is also checked for winding in {0,1} and for deep "
+             "crossings of its own edges. Integer-lattice rectangle unions are compared exactly (unit boundary edges and "
+             "Area()==pixel count, both operand orders), with every ordered pair of rectangles on a small lattice "
+             "enumerated. Inputs above 1024 and 1e4 edges exercise the BVH broad phase. Sampling, not proof."),
+    "note": ("Trusts harness/c11_geom2d.h (exact orientation by floating-point expansions, long-double distances) and g++'s "
+             "sanitizers. Only points farther than 4*epsilon (+ documented merge-chain drift) from all input and result "
+             "edges decide; serial build only (MANIFOLD_PAR=-1); contour soups are sampled from 9 generator families; "
+             "only the latticepairs sub-space is exhaustive."),
+    "technique": "runtime monitoring: generated workloads + independent exact 2D winding/pixel oracle on public output under ASan+UBSan",
+    "design_ref": "DESIGN.md 4 C11",
+}
